@@ -39,7 +39,60 @@ class ReduceFn:
         out = SymBlock(tuple(1 if i in axis else s for i, s in enumerate(x.shape)), self.out_dtype or x.dtype, None, f"{self.label}(...)")
         out.agg = getattr(x, "agg", None)  # a reduced chunk aggregates exactly the elements its argument aggregates
         out.aggpos = getattr(x, "aggpos", None)
+        pg = getattr(x, "pagg", None)
+        if pg is not None and pg["axis"] in axis:
+            # the single element left along the axis aggregates the union of the block's element intervals, which must
+            # be contiguous: f(k).hi == f(k+1).lo for 0 <= k < extent-1
+            n_ax, f = x.shape[pg["axis"]], pg["f"]
+            out.pagg = dict(axis=pg["axis"], f=(lambda l, f=f, n_ax=n_ax: (f(0)[0], f(n_ax - 1)[1])),
+                            cond=list(pg["cond"]) + [("forall", n_ax - 1, (lambda k, f=f: tz_eq(f(k)[1], f(k + 1)[0])))])
         return out
+
+
+def tz_(v):
+    from pyvc.sym import tz as _tz
+
+    return _tz(v)
+
+
+def tz_eq(a, b):
+    from pyvc.sym import tz as _tz
+
+    return _tz(a) == _tz(b)
+
+
+def check_pagg(ctx, name, blk, want_f, extent, axis):
+    """obligations: along `axis` the block's element l aggregates want_f(l), for every 0 <= l < extent, and every side
+    condition the provenance was derived under holds"""
+    import z3 as _z3
+    from pyvc.sym import tz as _tz
+
+    pg = getattr(blk, "pagg", None)
+    if pg is None or pg["axis"] != axis:
+        ctx.oblige(f"{name}:prefix-provenance-present", False, kind="ensures", detail="element provenance lost")
+        return
+    ctx.push()
+    try:
+        l = ctx.fresh_int("pl", lo=0)
+        ctx.assume(l < extent)
+        if ctx.feasible():
+            got, want = pg["f"](l), want_f(l)
+            ctx.oblige(f"{name}:element-aggregates-the-right-interval", _z3.And(_tz(got[0]) == _tz(want[0]), _tz(got[1]) == _tz(want[1])), kind="ensures")
+    finally:
+        ctx.pop()
+    for i, cd in enumerate(pg["cond"]):
+        if isinstance(cd, tuple) and cd[0] == "forall":
+            _, bound, g = cd
+            ctx.push()
+            try:
+                k = ctx.fresh_int("pk", lo=0)
+                ctx.assume(k < bound)
+                if ctx.feasible():
+                    ctx.oblige(f"{name}:pieces-are-adjacent[{i}]", g(k), kind="ensures")
+            finally:
+                ctx.pop()
+        else:
+            ctx.oblige(f"{name}:pieces-are-adjacent[{i}]", cd, kind="ensures")
 
 
 def partial_reduce_loop(c, kind):
@@ -108,11 +161,27 @@ def partial_reduce_loop(c, kind):
             return None
         return dict(seq=g0["seq"], lo=0, hi=j, cond=[])
 
+    def stream_whole(interp, fr, l):
+        """identity fold (scan): what the l-th reduced chunk of the stream aggregates — the whole interval of stream
+        block l (after the initial function reduced it to extent 1)"""
+        arrays, axis, init = fr.locals["arrays"], fr.locals["axis"], fr.locals.get("initial_func")
+        if kind != "identity" or init is None:
+            return None
+        b = arrays.get(interp, l)
+        pg = getattr(b, "pagg", None)
+        if pg is None or pg["axis"] != axis[0]:
+            return None
+        n_ax = b.shape[axis[0]]
+        return (pg["f"](0)[0], pg["f"](n_ax - 1)[1])
+
     def one_block(interp, fr, j):
         shp, dt = shape_after(interp, fr, j)
         blk = SymBlock(shp, dt, None, "partial")
         blk.agg = agg_after(interp, fr, j)
         blk.aggpos = pos_after(interp, fr, j)
+        if kind == "identity" and stream_whole(interp, fr, 0) is not None:
+            ax0 = fr.locals["axis"][0]
+            blk.pagg = dict(axis=ax0, f=(lambda l: stream_whole(interp, fr, l)), cond=[])
         return blk
 
     def havoc(interp, fr, j):
@@ -143,6 +212,16 @@ def partial_reduce_loop(c, kind):
                 for (l1, h1), (l2, h2) in zip(got["box"], want["box"]):
                     terms += [_tz(l1) == _tz(l2), _tz(h1) == _tz(h2)]
                 yield f"aggregates-the-first-j-blocks-each-once{tag}", _z3.And(*terms)
+        if kind == "identity" and stream_whole(interp, fr, 0) is not None:
+            # scans: element l of the running result is the reduced chunk of stream block l, for every l < j
+            import z3 as _z3
+            from pyvc.sym import tz as _tz
+
+            pg = getattr(res, "pagg", None)
+            if pg is None:
+                yield f"element-l-is-the-reduced-stream-block-l{tag}", False
+            else:
+                check_pagg(interp.ctx, f"loop[_partial_reduce.fold]:preserved{tag}", res, (lambda l: stream_whole(interp, fr, l)), j, fr.locals["axis"][0])
         wantp = pos_after(interp, fr, j)
         if wantp is not None:
             import z3 as _z3
@@ -590,50 +669,168 @@ class ShapePreservingFn:
         return SymBlock(x.shape, x.dtype, None, "cum(...)")
 
 
+class CumKernel:
+    """Uninterpreted blockwise scan kernel (the cumsum/cumprod wrapper): the result has the shape of its argument; along
+    `axis` element l is the fold of the argument's elements 0..l (include_initial=False) resp. 0..l-1
+    (include_initial=True: the identity first, the final value dropped) — assumed kernel contract."""
+
+    _pyvc_keywords = ("axis", "include_initial")
+    _pyvc_is_gen = False
+    __name__ = "scan_kernel"
+
+    def __call__(self, x, axis=None, include_initial=False, **kw):
+        out = SymBlock(x.shape, x.dtype, None, "cum(...)")
+        pg = getattr(x, "pagg", None)
+        if pg is not None and pg["axis"] == axis:
+            f, n_ax = pg["f"], x.shape[axis]
+            if include_initial:
+                g = lambda l, f=f: (f(0)[0], f(l)[0])  # noqa: E731
+            else:
+                g = lambda l, f=f: (f(0)[0], f(l)[1])  # noqa: E731
+            out.pagg = dict(axis=axis, f=g, cond=list(pg["cond"]) + [("forall", n_ax - 1, (lambda k, f=f: tz_eq(f(k)[1], f(k + 1)[0])))])
+        return out
+
+
+class ScanBinop(ElemwiseFn):
+    """binop(scn, inc) of the scan's last stage: the increment (one element along the axis, broadcast) is the fold of
+    everything *before* the block, so the two aggregated intervals must be adjacent: inc.hi == scn.lo"""
+
+    def __call__(self, scn, inc, **kw):
+        out = ElemwiseFn.__call__(self, scn, inc, **kw)
+        p1, p2 = getattr(scn, "pagg", None), getattr(inc, "pagg", None)
+        if p1 is not None and p2 is not None and p1["axis"] == p2["axis"]:
+            f1, f2 = p1["f"], p2["f"]
+            n_ax = scn.shape[p1["axis"]]
+            out.pagg = dict(axis=p1["axis"], f=(lambda l: (f2(0)[0], f1(l)[1])),
+                            cond=list(p1["cond"]) + list(p2["cond"]) + [("forall", n_ax, (lambda k: tz_eq(f2(0)[1], f1(k)[0])))])
+        return out
+
+
 @register
 class Scan(ArrayOpSpec):
     """scan(array, func, preop, binop, axis, dtype, include_initial, split_every) — cumulative_sum/prod.
     ensures  result has the shape and chunks of `array`; every call of general_blockwise inside it (blockwise scan,
-             per-block reduction, increment pairing) meets the universal contract; the internal assert cannot fail.
-    The recursive call is replaced by this very contract (modular treatment of recursion)."""
+             per-block reduction, increment pairing) meets the universal contract; the internal assert cannot fail;
+             **value**: with the input's elements along the axis aggregating the consecutive intervals
+             [B(e), B(e+1)) of an arbitrary tiling B (uninterpreted), element e of the result is the fold of
+             [B(0), B(e+1)) (include_initial=False) resp. [B(0), B(e)) (include_initial=True) — every piece folded
+             exactly once, adjacent pieces only.
+    The recursive call is replaced by this very contract (modular treatment of recursion: the contract is proved for
+    both values of include_initial and for an arbitrary tiling, which is what the recursive call needs)."""
 
     target = f"{OPS}:scan"
     props = ("C01", "C12", "C17")
-    quick_props = ("C17",)
+    quick_props = ("C17", "C01")
 
     def configs(self, tier):
         if tier == "quick":
-            return [dict(ndim=1, axis=0)]
-        return [dict(ndim=nd, axis=ax) for nd in (1, 2) for ax in range(nd)]
+            return [dict(ndim=1, axis=0, initial=False), dict(ndim=1, axis=0, initial=True)]
+        return [dict(ndim=nd, axis=ax, initial=i) for nd in (1, 2) for ax in range(nd) for i in (False, True)]
 
     def install(self, c):
         S = gb.install(c)
         install_partial_reduce_loop(c, "identity")
+        c.eagg = {}
 
         def scan_contract(it, fn, a, k):
             arr = a[0]
             ax = k["axis"]
-            # requires: more than zero dims; ensures: same shape/chunks/dtype/spec (a new array)
             from pyvc.arrays import build_array, fresh_name
 
-            return build_array(it, fresh_name(it), arr.attrs["_shape"], arr.attrs["_chunks"], k.get("dtype") or arr.attrs["_dtype"],
-                               arr.attrs["spec"])
+            out = build_array(it, fresh_name(it), arr.attrs["_shape"], arr.attrs["_chunks"], k.get("dtype") or arr.attrs["_dtype"],
+                              arr.attrs["spec"])
+            ea = c.eagg.get(arr.name)
+            if ea is not None and ea["axis"] == ax:
+                f = ea["f"]
+                # requires (obligation at the call site): the input's element intervals are consecutive
+                ctx = it.ctx
+                ctx.push()
+                try:
+                    m = ctx.fresh_int("rm", lo=0)
+                    ctx.assume(m + 1 < arr.shape[ax])
+                    if ctx.feasible():
+                        ctx.oblige("scan[recursive call]:requires:input-intervals-are-consecutive", tz_eq(f(m)[1], f(m + 1)[0]), kind="requires")
+                finally:
+                    ctx.pop()
+                if k.get("include_initial"):
+                    g = lambda e, bs=None, f=f: (f(0)[0], f(e)[0])  # noqa: E731
+                else:
+                    g = lambda e, bs=None, f=f: (f(0)[0], f(e)[1])  # noqa: E731
+                c.eagg[out.name] = dict(axis=ax, f=g)
+            return out
 
         S[f"{OPS}:scan"] = scan_contract
 
     def setup(self, c):
+        import z3
+
+        from pyvc.sym import wrap
+
         nd, ax = c.cfg["ndim"], c.cfg["axis"]
         x = sym_array(c, "x", nd)
         split = c.int("split_every", lo=2)
-        kw = dict(preop=ReduceFn("reduce", "preop"), binop=ElemwiseFn("binop"), axis=ax, dtype=x.dtype,
-                  include_initial=False, split_every=split)
-        return (x, ShapePreservingFn()), kw
+        B = z3.Function("B", z3.IntSort(), z3.IntSort())
+        fx = lambda e, bs=None: (wrap(B(tz_(e))), wrap(B(tz_(e) + 1)))  # noqa: E731
+        c.eagg[x.name] = dict(axis=ax, f=fx)
+        c.x, c.ax, c.split, c.fx = x, ax, split, fx
+        c.check_result_block = self._hook(c)
+        kw = dict(preop=ReduceFn("reduce", "preop"), binop=ScanBinop("binop"), axis=ax, dtype=x.dtype,
+                  include_initial=c.cfg["initial"], split_every=split)
+        return (x, CumKernel()), kw
+
+    @staticmethod
+    def _hook(c):
+        """per general_blockwise call inside scan(): what each element of the task's result block must aggregate; once
+        checked, the array the call produces carries that element provenance for its readers"""
+
+        def hook(it, rec, tag, j, blk):
+            ctx = it.ctx
+            x, ax, fx, split = c.x, c.ax, c.fx, c.split
+            cs = x.chunksize[ax]
+            n = x.shape[ax]
+            start = rec.out_regions[j][ax][0]
+            extent = rec.out_regions[j][ax][1]
+            name = rec.target_names[j] if getattr(rec, "target_names", None) else None
+            if tag == "GB":
+                # 1. blockwise scan: element e = fold of its own block up to e
+                # (bs: start of the block of x / scanned that contains e — the two arrays share their chunk grid)
+                blo = (lambda e, bs: bs if bs is not None else (e // cs) * cs)
+                if c.cfg["initial"]:
+                    want = lambda e, bs=None: (fx(blo(e, bs))[0], fx(e)[0])  # noqa: E731
+                else:
+                    want = lambda e, bs=None: (fx(blo(e, bs))[0], fx(e)[1])  # noqa: E731
+            elif tag == "GB#2":
+                # 2. per-block reduction: element b = fold of the whole block b of the input
+                want = lambda b, bs=None: (fx(b * cs)[0], fx(c.min((b + 1) * cs, n) - 1)[1])  # noqa: E731
+            else:
+                # 3. increment pairing: element e = fold of everything from the start up to e
+                if c.cfg["initial"]:
+                    want = lambda e, bs=None: (fx(0)[0], fx(e)[0])  # noqa: E731
+                else:
+                    want = lambda e, bs=None: (fx(0)[0], fx(e)[1])  # noqa: E731
+            check_pagg(ctx, f"{tag}.prefix[out{j}]", blk, (lambda l: want(start + l, start)), extent, ax)
+            if name is not None:
+                c.eagg[name] = dict(axis=ax, f=want)
+
+        return hook
 
     def ensures(self, c, a, k, res):
+        import z3
+
+        from pyvc.sym import tz
+
         x = a[0]
         yield "shape", c.eq_tuple(res.shape, x.shape)
         for i in range(x.ndim):
             yield f"numblocks[{i}]", res.numblocks[i] == x.numblocks[i]
+        ea = c.eagg.get(res.name)
+        yield "result-carries-element-provenance", ea is not None
+        if ea is not None:
+            e = c.ctx.fresh_int("ge", lo=0)
+            c.assume(e < x.shape[c.ax])
+            got = ea["f"](e)
+            want = (c.fx(0)[0], c.fx(e)[0] if c.cfg["initial"] else c.fx(e)[1])
+            yield "element-e-is-the-fold-of-everything-up-to-e", z3.And(tz(got[0]) == tz(want[0]), tz(got[1]) == tz(want[1]))
 
     def replay_case(self, cfg, model):
         nd = cfg["ndim"]
